@@ -394,6 +394,19 @@ def rule_m5(F, rule_id="C16.M5"):
     return r
 
 
+def rule_m6(F):
+    """Linearizability of the whole-list reads: `to_vec` and `join` observe the list at ONE moment (shared with C15.M12 / M13: a
+    single lock acquisition; no per-element reads).  This is the one clause of C16's first sentence that is structural."""
+    from . import c15
+    out = []
+    for rr, nid in ((c15.rule_m12(F), "C16.M6"), (c15.rule_m13(F), "C16.M7")):
+        rr.rule = nid
+        for v in rr.violations:
+            v.rule = nid
+        out.append(rr)
+    return out
+
+
 def rules(ctx):
     F = ctx["F"]
     bodies = [b for b in F.all_bodies() if b.mir]
@@ -403,7 +416,7 @@ def rules(ctx):
     rule_m2(F, m2)
     m3 = RuleResult("C16.M3", "RawList's unsafe Send/Sync covers only the owned buffer pointer; ErasedList = Arc<Mutex<RawList>>", floor=5)
     rule_m3(F, m3)
-    return [m1, m2, m3, rule_m4(F), rule_m5(F)]
+    return [m1, m2, m3, rule_m4(F), rule_m5(F)] + rule_m6(F)
 
 
 def canary(C):
